@@ -17,8 +17,9 @@ The footprint lemma (A) is proved (`GrolProofs/MemoMono.lean`, `MemoFootprint.le
 end of this file): miss counters never decrease (`C04.miss_monotone`), so "after = before" is
 inherited by every step of the call (`C04.quiet_inherited`, with `During` = "is a step of");
 for the individual steps it means: no completed `del` / `TriggerNoCache` on the frame
-(`C04.no_del_in_quiet_call`), every `makeRef` reached only a function-valued binding or an
-all-caps name of a depth-0 frame (`C04.quiet_makeRef`), every nested call was a hit, failed to bind
+(`C04.no_del_in_quiet_call`), every `makeRef` reached only a binding of a depth-0 frame that is function-valued or
+has an all-caps name (`C04.quiet_makeRef`; since repo fix 066677f a function held by a variable of an enclosing call is
+a miss: `mk=func(g){func(x){g(x)}}; c1=mk(inc); c2=mk(dbl); c1(3), c2(3)` used to print 4 4), every nested call was a hit, failed to bind
 its arguments, or was itself miss-free on its own frame (`C04.purity_footprint`).
 
 every `Get` returned nothing, the frame's own function, a value of the frame's own store or a
@@ -224,7 +225,7 @@ theorem C04.no_del_in_quiet_call {α : Type} {x : M α} {st s : St} {fuel : Nat}
     outcome (evalDelete (fuel + 1) node) s ≠ .ok r := no_del_during hd hq r
 
 /-- a miss-free `makeRef` found nothing or handed out a reference to a trusted binding: a function
-value, or an all-caps name in a depth-0 frame -/
+value or an all-caps name, in a depth-0 frame -/
 theorem C04.quiet_makeRef (orig : Nat) (name : String) (st : St) (r : Option Obj)
     (hok : outcome (makeRef orig name) st = .ok r) (hq : Quiet orig (makeRef orig name) st) :
     r = none ∨ ∃ re rn, r = some (.ref re rn) ∧ Trusted st name re rn :=
